@@ -28,7 +28,7 @@ UIDS_MORE = ["040000008200E00074C5B7101A82E00800000000B0C1D2E3F4A5B6C70000000000
 
 COND_CLASSES = [["cur"], ["stale"], ["other"], ["star"], ["unq"], ["garbage"],
                 ["other", "cur"], ["stale", "garbage"], ["garbage", "cur", "other"],
-                ["qstar"], ["starin"], ["stale", "starin"], ["cur", "qstar"]]
+                ["qstar"], ["starin"], ["stale", "starin"], ["cur", "qstar"], ["empty"], ["blank"]]
 # If-Match only (strong comparison): the current etag in weak form lists nothing the resource has
 IM_CLASSES = COND_CLASSES + [["weak"], ["stale", "weak"], ["weak", "other"]]
 
@@ -120,6 +120,10 @@ def ics_pool(rng, uidheavy=False):
     pool.append(gamma.ics_event("odd-3", "twice", comp="VTODO", dtend=None,
                                 extra=("PERCENT-COMPLETE:10", "PERCENT-COMPLETE:20")))
     pool.append(gamma.ics_event("todo-1", "A task", comp="VTODO", dtend=None))
+    # SUMMARY itself twice (what change descriptions are made from)
+    pool.append(gamma.ics_event("odd-4", "first summary", extra=("SUMMARY:second summary",)))
+    # the end of the body: no line break after END:VCALENDAR
+    pool.append(gamma.ics_event("nonl-1", "no final newline").rstrip(b"\r\n"))
     return [(b, True) for b in pool]
 
 
@@ -158,7 +162,12 @@ def vcf_pool():
     return [(gamma.vcard("Ada Lovelace"), True),
             (gamma.vcard("Ada Lovelace", extra=("EMAIL:ada@example.com",)), True),
             (gamma.vcard("Zoë Müller", extra=("NICKNAME:zed,zo",)), True),
-            (gamma.vcard("Charles", uid="card-uid-1"), True)]
+            (gamma.vcard("Charles", uid="card-uid-1"), True),
+            # the end of the body: no line break after END:VCARD, bare LF endings, a blank line after
+            (gamma.vcard("No Newline", uid="card-uid-nonl").rstrip(b"\r\n"), True),
+            (gamma.vcard("Bare Linefeeds", uid="card-uid-lf").replace(b"\r\n", b"\n"), True),
+            (gamma.vcard("Bare Linefeeds", uid="card-uid-lf").replace(b"\r\n", b"\n").rstrip(b"\n"), True),
+            (gamma.vcard("Blank After", uid="card-uid-blank") + b"\r\n", True)]
 
 
 def weighted(rng, table):
@@ -183,6 +192,18 @@ def first_uid_of(data):
     return alpha.unescape_text(u) if u else ""
 
 
+SPECIAL_BODIES = {
+    # SUMMARY twice: the text change descriptions (commit messages) are made from is a list
+    "twice-summary": lambda: gamma.ics_event("special-twice", "first summary", extra=("SUMMARY:second summary",)),
+    "uid-u-1": lambda: gamma.ics_event("special-uid-u", "holder one"),
+    "uid-u-2": lambda: gamma.ics_event("special-uid-u", "holder two", dtstart="20200109T100000Z", dtend="20200109T110000Z"),
+}
+
+
+def _special_body(name):
+    return SPECIAL_BODIES[name]()
+
+
 def run_witness_session(steps, frontend="wsgi", prefix="/", backend="tree", principal="/user/", audit_git=True):
     """An explicit history (the witness of a listed finding): steps are [method name, args...]
     of DavSession, e.g. ["mk", "cal1", "calendar"], ["propupdate", "cal1", [["displayname", "x"]]]."""
@@ -193,6 +214,7 @@ def run_witness_session(steps, frontend="wsgi", prefix="/", backend="tree", prin
             kwargs = args.pop() if args and isinstance(args[-1], dict) else {}
             args = [gamma.model_body(int(a.split(":")[1]))[0] if isinstance(a, str) and a.startswith("@model:") else
                     (b"opaque bytes \xe2\x98\x83 " * 600)[:int(a.split(":")[1])] if isinstance(a, str) and a.startswith("@bytes:")
+                    else _special_body(a[1:]) if isinstance(a, str) and a.startswith("@") and a[1:] in SPECIAL_BODIES
                     else a for a in args]
             if st[0] == "multiget":
                 args[1] = [tuple(x) for x in args[1]]
